@@ -119,8 +119,9 @@ def unit_find_real_name(present):
     return run
 
 
-def unit_conf_changed(is_list, reported, pending_edit=False):
-    """reported: 'one' | 'many' | 'unset'; pending_edit: this controller has an unsaved local edit of the same option"""
+def unit_conf_changed(is_list, reported, pending_edit=False, other_case=False):
+    """reported: 'one' | 'many' | 'unset'; pending_edit: this controller has an unsaved local edit of the same option;
+    other_case: the event spells the option name in another case than the canonical key"""
     def run(ctx):
         ctx.fn(MODULE, 'TorConfig._conf_changed')
         import txtorcon.torconfig as tc
@@ -144,7 +145,13 @@ def unit_conf_changed(is_list, reported, pending_edit=False):
             val = ex.new_list(path, [VStr(v1), VStr(v2)])
         else:
             val = VStr('DEFAULT')
-        H[('g', 'parse_keywords_result')] = ex.new_dict(path, [(VStr(name), val)])
+        key = name
+        if other_case:
+            key = z3.String('name_as_reported')
+            ctx.input('name_as_reported', VStr(key))
+            path.assume(z3.And(key != name, T.F_lower(key) == T.F_lower(name), key != other, T.F_lower(key) != T.F_lower(other)))
+            H[('g', 'real_name_alias')] = (key, name)
+        H[('g', 'parse_keywords_result')] = ex.new_dict(path, [(VStr(key), val)])
         parser = tc.LineList() if is_list else tc.Integer()
         H[('f', o, 'parsers')] = ex.new_dict(path, [(VStr(name), VConc(parser)), (VStr(other), VConc(tc.String()))])
         old_other = VStr(z3.String('old_other'))
@@ -387,6 +394,7 @@ def units():
                 continue
             out.append(('C11/_conf_changed/%s/%s' % ('list' if is_list else 'scalar', rep), unit_conf_changed(is_list, rep)))
             out.append(('C11/_conf_changed/%s/%s/pending_local_edit' % ('list' if is_list else 'scalar', rep), unit_conf_changed(is_list, rep, True)))
+            out.append(('C11/_conf_changed/%s/%s/name_in_other_case' % ('list' if is_list else 'scalar', rep), unit_conf_changed(is_list, rep, False, True)))
     return out
 
 
